@@ -407,7 +407,9 @@ def case_fault(cs, idx):
             own["a"].transact(5)
         pos = own["a"].position
         cap = own.capital
-        ok, got = expect(lambda: own["a"].transact(5, price=float(data["a"].iloc[k]) * 1.01), ValueError, "Cannot transact at custom prices")
+        cpx = rng.choice([float(data["a"].iloc[k]) * 1.01, float(data["a"].iloc[k]) - 0.75, 0.0, 0, -1.5, np.float64(0.0), 1e-9])
+        w["custom_price"] = repr(cpx)
+        ok, got = expect(lambda: own["a"].transact(rng.choice([5, -5]), price=cpx), ValueError, "Cannot transact at custom prices")
         if ok and (own["a"].position != pos or own.capital != cap):
             ok, got = False, "refused trade left side effects"
         reached = True
